@@ -259,6 +259,7 @@ class SamplerCore:
         d["random_state"] = self.config.random_state
         d["n_total"] = getattr(self, "n_total", None)
         d["logz_err"] = getattr(self, "logz_err", None)
+        d["rng_state"] = np.random.get_state()
 
         try:
             # Remove pool-related attributes that can't be pickled
@@ -314,9 +315,9 @@ class SamplerCore:
         if "logz_err" in d:
             self.logz_err = d["logz_err"]
 
-        # Set random seed
-        if "random_state" in d and d["random_state"] is not None:
-            np.random.seed(d["random_state"])
+        # Continue the random stream from where the checkpoint left it
+        if d.get("rng_state") is not None:
+            np.random.set_state(d["rng_state"])
 
     def _log_like(self, x):
         """Compute log likelihood (replaces Sampler._log_like - 54 lines)."""
